@@ -575,7 +575,7 @@ class C12(Check):
         hit = bool(proc.ropen) and not proc.wopen and any(rp in proc.read_paths for rp in proc.ropen) and not POOL[keyname].get('uncacheable')     # (read, rejected, rebuilt and not written is not a hit)
         if hit:
             out.count('cache-hit')
-            rp = next(iter(proc.ropen))
+            rp = path if isinstance(path, str) and path in proc.ropen else next(iter(sorted(proc.ropen)))
             pv = prov_before.get(rp)
             if pv == sig:
                 out.count('cache-hit-legitimate')
@@ -597,8 +597,12 @@ class C12(Check):
         for q in set(before) | set(after):
             if q not in cpaths and before.get(q) != after.get(q):
                 return Violation('collateral-write', life=li, key=keyname, path=q)
-        if isinstance(path, str) and (cpaths - {path}):
-            return Violation('collateral-access', life=li, key=keyname, paths=sorted(cpaths - {path}))
+        # (a file that did not exist before and does not exist afterwards - a temporary sibling written and renamed onto the cache path -
+        #  is how an atomic writer works, not collateral damage)
+        #  and after an I/O error such a sibling (a NEW file named after the cache path) may be left behind)
+        extra = {q for q in cpaths - {path} if (q in before or q in after) and not q.startswith(path)} if isinstance(path, str) else set()
+        if extra:
+            return Violation('collateral-access', life=li, key=keyname, paths=sorted(extra))
         # (4) repair: after a lifetime without any fault the file is a valid cache for this key
         if POOL[keyname].get('uncacheable'):
             # a parser that cannot be pickled (closure in import_paths) is never written: nothing to repair, everything else still holds
@@ -607,7 +611,7 @@ class C12(Check):
                 return Violation('wrote-cache-file-for-uncacheable-parser', life=li, key=keyname)
             return None
         if not proc.fired and not fired_exc[0] and not any(p_ in disk.path_state for p_ in cpaths) and not (me and proc.hook is None):
-            rp = next(iter(cpaths), None)
+            rp = path if isinstance(path, str) else next((q for q in sorted(cpaths) if q in disk.files), None)      # (the file that is there now, not a temporary sibling)
             if rp is None or rp not in disk.files:
                 return Violation('not-repaired(no-file)', life=li, key=keyname)
             snap = bytes(disk.files[rp].data)
